@@ -1,0 +1,348 @@
+//go:build verif
+
+package dnsmsg
+
+// Verification hook for property C20 ("recycled memory is exclusively owned"), build tag "verif" only:
+// ownership tracking for the pooled OBJECTS of this package (*Msg, *Question, the resource structs), which the
+// buffer hook of internal/pool cannot see (they live in sync.Pools).
+//
+// Disabled (the default): every hook function is one atomic load and changes nothing.
+// Enabled (VerifObjTrack(true); stays on for the rest of the process):
+//
+//   - Release* of an object that was already released and not handed out again is a "double-release" (the object
+//     would sit in its sync.Pool twice and be given to two owners): recorded with the stacks of both releases
+//     and swallowed, so that the rest of the run is not corrupted by it;
+//   - a released object is NOT put back into its sync.Pool: it is poisoned (recognisable header / type / class /
+//     ttl values) and parked in a bounded FIFO quarantine that keeps it referenced, so that neither the pool nor the
+//     allocator can hand its memory to somebody else.  A stale reader sees poison, never another owner's data.
+//     VerifObjReleased(o) tells a holder whether the object it was given has been released behind its back
+//     ("released while another owner holds it" / "a released object was returned");
+//   - when an object leaves the quarantine (FIFO overflow, VerifObjFlush) its poison is verified: a difference
+//     proves a WRITE AFTER RELEASE -> "write-after-release";
+//   - NewMsg / NewQuestion log the objects they hand out; handing out an object that is still live (it was in the
+//     pool twice: a double Put that happened while the hook was off) is a "get-while-live", handing out a
+//     quarantined one a "get-of-released".
+//
+// The New* functions of the resource structs are one-line functions; hooking them would change existing lines, so
+// only their Release* side is tracked (double release, write after release).
+// The hook is a SEARCH tool for failing schedules; it proves nothing.
+
+import (
+	"fmt"
+	"runtime"
+	"strings"
+	"sync"
+	"sync/atomic"
+)
+
+const (
+	verifObjQuarMax   = 1 << 16
+	verifObjMaxEvents = 256
+	verifObjStackDep  = 10
+
+	VerifObjPoison16 = 0xDBDB
+	VerifObjPoison32 = 0xDBDBDBDB
+)
+
+type VerifObjEvent struct {
+	Kind  string // double-release | write-after-release | get-while-live | get-of-released
+	Type  string // Msg | Question | A | ...
+	Stack string // the offending call (second release / get); for write-after-release: the release
+	First string // double-release: the stack of the first release
+}
+
+func (e VerifObjEvent) String() string {
+	return fmt.Sprintf("%s %s stack=%s first=%s", e.Kind, e.Type, e.Stack, e.First)
+}
+
+type verifObjRec struct {
+	pcs [verifObjStackDep]uintptr
+}
+
+var (
+	verifObjOn atomic.Bool
+
+	verifObjMu        sync.Mutex
+	verifObjLive      = map[any]struct{}{}     // handed out by NewMsg / NewQuestion, not yet released
+	verifObjReleasing = map[any]*verifObjRec{} // inside Release* (between the two call sites)
+	verifObjQuar      = map[any]*verifObjRec{} // released: poisoned and parked
+	verifObjFifo      []any
+	verifObjHead      int
+	verifObjEvents    []VerifObjEvent
+	verifObjCounts    = map[string]int{}
+	verifObjGets      uint64
+	verifObjRels      uint64
+)
+
+// VerifObjTrack(true) starts the tracking; it stays on (objects handed out while it is on must be known when
+// they come back).  VerifObjTrack(false) only flushes the quarantine.
+func VerifObjTrack(on bool) {
+	if on {
+		verifObjOn.Store(true)
+		return
+	}
+	VerifObjFlush()
+}
+
+// VerifObjFlush verifies the poison of every quarantined object and forgets them (they are left to the
+// garbage collector, never put back into a pool).
+func VerifObjFlush() {
+	verifObjMu.Lock()
+	defer verifObjMu.Unlock()
+	for verifObjHead < len(verifObjFifo) {
+		verifObjEvictLocked()
+	}
+	verifObjFifo = verifObjFifo[:0]
+	verifObjHead = 0
+}
+
+// VerifObjEvents returns the events recorded so far and the count per "<kind>/<type>", and clears both.
+func VerifObjEvents() ([]VerifObjEvent, map[string]int) {
+	verifObjMu.Lock()
+	defer verifObjMu.Unlock()
+	ev, cnt := verifObjEvents, verifObjCounts
+	verifObjEvents = nil
+	verifObjCounts = map[string]int{}
+	return ev, cnt
+}
+
+// VerifObjStats: objects handed out / released while enabled, quarantine length.
+func VerifObjStats() (gets, releases uint64, quarantined int) {
+	verifObjMu.Lock()
+	defer verifObjMu.Unlock()
+	return verifObjGets, verifObjRels, len(verifObjFifo) - verifObjHead
+}
+
+// VerifObjReleased reports whether o (a *Msg, *Question or resource pointer) has been released (and not handed
+// out again). A holder that was given o and has not released it must never see true.
+func VerifObjReleased(o any) bool {
+	verifObjMu.Lock()
+	defer verifObjMu.Unlock()
+	if _, q := verifObjQuar[o]; q {
+		return true
+	}
+	_, r := verifObjReleasing[o]
+	return r
+}
+
+func verifObjType(o any) string {
+	switch o.(type) {
+	case *Msg:
+		return "Msg"
+	case *Question:
+		return "Question"
+	case *A:
+		return "A"
+	case *AAAA:
+		return "AAAA"
+	case *MX:
+		return "MX"
+	case *NAMEResource:
+		return "NAME"
+	case *SOA:
+		return "SOA"
+	case *SRV:
+		return "SRV"
+	case *RawResource:
+		return "Raw"
+	}
+	return fmt.Sprintf("%T", o)
+}
+
+func verifObjNil(o any) bool {
+	switch v := o.(type) {
+	case nil:
+		return true
+	case *Msg:
+		return v == nil
+	case *Question:
+		return v == nil
+	case *A:
+		return v == nil
+	case *AAAA:
+		return v == nil
+	case *MX:
+		return v == nil
+	case *NAMEResource:
+		return v == nil
+	case *SOA:
+		return v == nil
+	case *SRV:
+		return v == nil
+	case *RawResource:
+		return v == nil
+	}
+	return false
+}
+
+var verifPoisonHeader = Header{ID: VerifObjPoison16, OpCode: 0xB, RCode: 0xB, Truncated: true, CheckingDisabled: true}
+
+// poison a released (already zeroed) object
+func verifObjPoisonize(o any) {
+	switch v := o.(type) {
+	case *Msg:
+		v.Header = verifPoisonHeader
+	case *Question:
+		v.Type, v.Class = VerifObjPoison16, VerifObjPoison16
+	case Resource:
+		h := v.Hdr()
+		h.Type, h.Class, h.TTL = VerifObjPoison16, VerifObjPoison16, VerifObjPoison32
+	}
+}
+
+// is the poison still in place (nobody wrote to the object after its release)?
+func verifObjIntact(o any) bool {
+	switch v := o.(type) {
+	case *Msg:
+		return v.Header == verifPoisonHeader && len(v.Questions) == 0 && len(v.Answers) == 0 &&
+			len(v.Authorities) == 0 && len(v.Additionals) == 0
+	case *Question:
+		return v.Name == nil && v.Type == VerifObjPoison16 && v.Class == VerifObjPoison16
+	case Resource:
+		h := v.Hdr()
+		return h.Name == nil && h.Type == VerifObjPoison16 && h.Class == VerifObjPoison16 && h.TTL == VerifObjPoison32
+	}
+	return true
+}
+
+func verifObjStack(pcs []uintptr) string {
+	n := 0
+	for n < len(pcs) && pcs[n] != 0 {
+		n++
+	}
+	if n == 0 {
+		return "-"
+	}
+	var sb strings.Builder
+	fr := runtime.CallersFrames(pcs[:n])
+	for {
+		f, more := fr.Next()
+		if f.Function != "" {
+			fn := f.Function
+			if i := strings.LastIndexByte(fn, '/'); i >= 0 {
+				fn = fn[i+1:]
+			}
+			if sb.Len() > 0 {
+				sb.WriteByte('<')
+			}
+			fmt.Fprintf(&sb, "%s:%d", fn, f.Line)
+		}
+		if !more {
+			break
+		}
+	}
+	return sb.String()
+}
+
+func verifObjRecordLocked(e VerifObjEvent) {
+	verifObjCounts[e.Kind+"/"+e.Type]++
+	if len(verifObjEvents) < verifObjMaxEvents {
+		verifObjEvents = append(verifObjEvents, e)
+	}
+}
+
+func verifObjEvictLocked() {
+	o := verifObjFifo[verifObjHead]
+	verifObjFifo[verifObjHead] = nil
+	verifObjHead++
+	rec := verifObjQuar[o]
+	delete(verifObjQuar, o)
+	if rec != nil && !verifObjIntact(o) {
+		verifObjRecordLocked(VerifObjEvent{Kind: "write-after-release", Type: verifObjType(o), Stack: verifObjStack(rec.pcs[:])})
+	}
+	if verifObjHead > 4096 && verifObjHead*2 > len(verifObjFifo) {
+		n := copy(verifObjFifo, verifObjFifo[verifObjHead:])
+		for i := n; i < len(verifObjFifo); i++ {
+			verifObjFifo[i] = nil
+		}
+		verifObjFifo = verifObjFifo[:n]
+		verifObjHead = 0
+	}
+}
+
+// verifObjGot logs an object handed out by a New* function.
+func verifObjGot(o any) {
+	var pcs [verifObjStackDep]uintptr
+	verifObjMu.Lock()
+	verifObjGets++
+	if _, q := verifObjQuar[o]; q {
+		runtime.Callers(3, pcs[:])
+		verifObjRecordLocked(VerifObjEvent{Kind: "get-of-released", Type: verifObjType(o), Stack: verifObjStack(pcs[:])})
+	} else if _, l := verifObjLive[o]; l {
+		runtime.Callers(3, pcs[:])
+		verifObjRecordLocked(VerifObjEvent{Kind: "get-while-live", Type: verifObjType(o), Stack: verifObjStack(pcs[:])})
+	}
+	verifObjLive[o] = struct{}{}
+	verifObjMu.Unlock()
+}
+
+// verifGetMsg / verifGetQuestion take over NewMsg / NewQuestion while the hook is enabled (add-only call sites).
+func verifGetMsg() *Msg {
+	if !verifObjOn.Load() {
+		return nil
+	}
+	m := msgPool.Get().(*Msg)
+	verifObjGot(m)
+	return m
+}
+
+func verifGetQuestion() *Question {
+	if !verifObjOn.Load() {
+		return nil
+	}
+	q := qsPool.Get().(*Question)
+	verifObjGot(q)
+	return q
+}
+
+// verifObjRelease is the first statement of every Release* function. It returns true when the release must not
+// be carried out (the object is already released: double release).
+func verifObjRelease(o any) bool {
+	if !verifObjOn.Load() || verifObjNil(o) {
+		return false
+	}
+	rec := &verifObjRec{}
+	runtime.Callers(3, rec.pcs[:])
+	verifObjMu.Lock()
+	defer verifObjMu.Unlock()
+	verifObjRels++
+	first, dup := verifObjQuar[o]
+	if !dup {
+		first, dup = verifObjReleasing[o]
+	}
+	if dup {
+		verifObjRecordLocked(VerifObjEvent{Kind: "double-release", Type: verifObjType(o),
+			Stack: verifObjStack(rec.pcs[:]), First: verifObjStack(first.pcs[:])})
+		return true
+	}
+	delete(verifObjLive, o)
+	verifObjReleasing[o] = rec
+	return false
+}
+
+// verifObjQuarantine stands in front of the sync.Pool Put of every Release* function. It returns true when it kept
+// the object (which then must not be Put).
+func verifObjQuarantine(o any) bool {
+	if !verifObjOn.Load() || verifObjNil(o) {
+		return false
+	}
+	verifObjMu.Lock()
+	rec := verifObjReleasing[o]
+	if rec == nil {
+		// the release started before the hook was enabled: not tracked, ordinary Put
+		verifObjMu.Unlock()
+		return false
+	}
+	verifObjMu.Unlock()
+	// poison outside the lock: the releaser still is the only legitimate holder
+	verifObjPoisonize(o)
+	verifObjMu.Lock()
+	delete(verifObjReleasing, o)
+	verifObjQuar[o] = rec
+	verifObjFifo = append(verifObjFifo, o)
+	for len(verifObjFifo)-verifObjHead > verifObjQuarMax {
+		verifObjEvictLocked()
+	}
+	verifObjMu.Unlock()
+	return true
+}
